@@ -56,6 +56,22 @@ var Props = map[string]PropSpec{
 		Assumptions: storeAssume, RealStub: storeRealStub},
 }
 
+func init() {
+	Props["C40"] = PropSpec{Engine: "kbsim", Level: "exploration", QuickS: 40, ThoroughS: 900, MinBudget: 120,
+		Rule: "one evaluation = one generated keybase history (12-40 operations: create, import of raw keys and of exported armors, export as object and as armor, sign, passphrase update, delete with passphrase, unsafe delete, get, list) on the real keybase over the simulated disk, with the right passphrase or a near-miss (case, trailing blank, NUL, common 72-byte prefix, unicode, empty), reopen of the keybase over the surviving disk, single-bit flips of stored records and of exported armors; oracle: address -> (key, passphrase) map - a private key is only ever handed out (export, sign, update, delete, armor decrypt/import) for its passphrase and is byte-identical to the stored key, listed = stored, deleted = gone; after a flip only the damaged record is relaxed (it may fail, it may never yield another key or accept another passphrase); distinct case = (operation, record state, right/wrong passphrase, outcome)",
+		Assumptions: []string{
+			"crypto/rand is replaced by a seeded stream through testing/cryptotest.SetGlobalRandom (Go 1.26), so key generation and salts are a function of the seed",
+			"the pure half of the statement (the space of armor mutations as such, key-derivation strength) is not claimed; armor and record flips are single-bit faults at schedule-chosen positions",
+			"sampling, not proof: seeded search over operation histories",
+		},
+		RealStub: map[string]string{
+			"crypto/keys (dbKeybase), crypto/keys/mintkey (scrypt + AES-GCM armor), crypto (ed25519)": "real (scrypt at the repository's own cost parameters)",
+			"LevelDB under the keybase":                              "stub: simdb through hook H3 keys.NewWithDB",
+			"lazy_keybase (opens goleveldb on a directory per call)": "not run: it only wraps the same dbKeybase around a freshly opened DB; reopen is modelled by a new dbKeybase over the surviving simdb",
+			"clock, network":                                         "not involved",
+		}}
+}
+
 var chainRealStub = map[string]string{
 	"app, baseapp, x/* keepers+handlers+ante, codec, crypto, store/*":            "real",
 	"types.TransactionIndexer, Tendermint BlockStore, block/header/commit types": "real library code over simdb, fed by the driver",
